@@ -1,127 +1,90 @@
 /-
   Property C01 — emitted 6502 code computes what the C source says.
-  Models: CV.GenFlat (port of the generator for the declared fragment, stage 1), CV.Mos (6502
-  semantics), CV.CSem (the C reading used by the co-execution search).
+  Models: CV.GenFlat + CV.GenStruct (port of the generator for the declared fragment, stages 1 and 2),
+  CV.Mos (6502 semantics), CV.CSem (the C reading used by the co-execution search).
 
-  Proved, for EVERY statement of the fragment, every memory layout and every machine state
-  (no bound on program length):
-   * `gen_stmt_correct`  : executing the code the generator emits for a statement ends, and the
-     memory is exactly what the source prescribes under 8-bit wrap-around; X, Y and SP unchanged
-   * `gen_block_correct` : the same for any sequence of such statements (induction on the list)
-   * `adc_after_clc`, `sbc_after_sec` : the arithmetic facts the templates rest on
-  The fragment (`InFragment`): v = a | v = a ∘ b | v ∘= a | v++ | v-- over global unsigned chars in
-  zero page and constants, ∘ ∈ {+, −, &, |, ^}. Everything outside it (nested expressions, 16-bit
-  values, arrays, X/Y, conditions, loops, switch, calls) is NOT covered by these theorems; it is
-  covered by the co-execution of generated programs against CV.CSem in the check (partial).
+  THE FRAGMENT (`SInFragment`): programs over global `unsigned char` variables and constants built from
+      v = a | v = a ∘ b | v ∘= a | v++ | v--                      ∘ ∈ {+, −, &, |, ^}     (stage 1)
+      { S… } | if (c) S | if (c) S else S | while (c) S | do S while (c); | for (F; c; F) S   (stage 2)
+      c ::= a ⋈ b | v | !v     ⋈ ∈ {==, !=, <, >=, >, <=}; no ordered comparison with literal 0, not two constants
+  nested to any depth, any length.
+
+  PROVED for EVERY program of the fragment, every layout, every machine state, every generator state
+  and every surrounding code (no bound on program size, nesting or number of loop iterations):
+   * `gen_stmt_correct`, `gen_block_correct` (stage 1): a straight-line statement (list) ends and leaves
+     exactly the memory the source prescribes under 8-bit wrap-around; X, Y, SP unchanged.
+   * `struct_correct_in_context` (stage 2): whenever the source meaning `sem` of a statement is defined
+     (the source terminates), the emitted lines — placed after any code whose labels are older and before
+     any code — run from the statement's first line to just behind its last line, the memory is the
+     one `sem` prescribes, X, Y, SP are unchanged, **and the generator's belief about the processor
+     flags is true of the machine state** (the invariant whose violation was the defect class found by
+     this check: function entry, csleep, inlined calls).
+   * `struct_program_correct`: the same for a whole function body started at line 0, as a terminating
+     run of the executable line machine `runG` (the machine the correspondence check executes).
+   * `fresh_labels`: every label the generator defines is new (counter ranges), the fact behind the
+     uniqueness of labels in emitted code (used again by C13).
+   * `adc_after_clc`, `sbc_after_sec`, `negate_means_not`, `mirror_means_swap`: the arithmetic and
+     operator-table facts the templates rest on.
+  NOT covered by these theorems (covered by co-execution against CV.CSem in the check, partial):
+  nested expressions, 16-bit values, arrays, X/Y, && || in conditions, switch, break/continue, calls,
+  signed types; optimisation levels above -O0 (C02's subject).
 -/
-import CV.GenFlat
+import CV.Proofs.GenStructMain
 set_option linter.unusedSimpArgs false
 namespace CV.C01
-open CV CV.GenFlat
+open CV CV.GenFlat CV.GenStruct
 
-theorem adc_after_clc (s : Cpu) (m : Byte) (h : s.f.c = false) : (s.adc m).a = s.a + m := by
-  simp [Cpu.adc, h]
-  apply BitVec.eq_of_toNat_eq
-  simp [BitVec.toNat_add]
+/-! ### stage 1 -/
 
-theorem sbc_after_sec (s : Cpu) (m : Byte) (h : s.f.c = true) : (s.sbc m).a = s.a - m := by
-  simp [Cpu.sbc, Cpu.adc, h]
-  apply BitVec.eq_of_toNat_eq
-  simp [BitVec.toNat_add, BitVec.toNat_sub, BitVec.toNat_not]
-  omega
+theorem adc_after_clc (s : Cpu) (m : Byte) (h : s.f.c = false) : (s.adc m).a = s.a + m :=
+  GenFlat.adc_after_clc s m h
 
-theorem adc_frame (s : Cpu) (m : Byte) : (s.adc m).mem = s.mem ∧ (s.adc m).x = s.x ∧ (s.adc m).y = s.y ∧ (s.adc m).sp = s.sp := by
-  simp [Cpu.adc]
+theorem sbc_after_sec (s : Cpu) (m : Byte) (h : s.f.c = true) : (s.sbc m).a = s.a - m :=
+  GenFlat.sbc_after_sec s m h
 
-/-- reading an atom through its operand gives its value -/
-theorem rd_opd (L : Layout) (s : Cpu) (a : Atom) : s.rd (opd L a) = some (val L s.mem a) := by
-  cases a <;> simp [opd, val, Cpu.rd, Cpu.ea]
-
-theorem identity_apply (op : BOp) (y : Atom) (L : Layout) (m : Mem) (x : Byte) (h : isIdentity op y = true) :
-    op.apply x (val L m y) = x := by
-  cases y with
-  | var _ => simp [isIdentity] at h
-  | const n =>
-    have e255 : (255#8 : BitVec 8) = BitVec.allOnes 8 := by decide
-    cases op <;> simp [isIdentity] at h <;> subst h <;> simp [BOp.apply, val]
-    rw [e255, BitVec.and_allOnes]
-
-/-- `LDA x ; <op> y` leaves `op x y` in A and nothing else that matters changed -/
-theorem load_op (L : Layout) (s : Cpu) (op : BOp) (x y : Atom) :
-    ∃ s', execSeq s ([(Mn.LDA, opd L x)] ++ (opInstrs op y).map (fun m => (m, if m == .CLC || m == .SEC then Opd.none else opd L y))) = some s' ∧
-      s'.a = op.apply (val L s.mem x) (val L s.mem y) ∧ s'.mem = s.mem ∧ s'.x = s.x ∧ s'.y = s.y ∧ s'.sp = s.sp := by
-  by_cases hid : isIdentity op y = true
-  · -- the operation is skipped; at most the carry set-up is emitted
-    have hv := identity_apply op y L s.mem (val L s.mem x) hid
-    cases op <;> simp [opInstrs, carryOf, mainOf, hid, execSeq, Cpu.exec, rd_opd, hv]
-  · have hid' : isIdentity op y = false := by simpa using hid
-    cases op
-    · simp [opInstrs, carryOf, mainOf, hid', execSeq, Cpu.exec, rd_opd]
-      refine ⟨?_, ?_⟩
-      · rw [adc_after_clc _ _ (by simp)]; simp [BOp.apply]
-      · simp [Cpu.adc]
-    · simp [opInstrs, carryOf, mainOf, hid', execSeq, Cpu.exec, rd_opd]
-      refine ⟨?_, ?_⟩
-      · rw [sbc_after_sec _ _ (by simp)]; simp [BOp.apply]
-      · simp [Cpu.sbc, Cpu.adc]
-    · simp [opInstrs, carryOf, mainOf, hid', execSeq, Cpu.exec, rd_opd, BOp.apply]
-    · simp [opInstrs, carryOf, mainOf, hid', execSeq, Cpu.exec, rd_opd, BOp.apply]
-    · simp [opInstrs, carryOf, mainOf, hid', execSeq, Cpu.exec, rd_opd, BOp.apply]
-
-theorem execSeq_append (s : Cpu) (xs ys : List (Mn × Opd)) :
-    execSeq s (xs ++ ys) = (execSeq s xs).bind fun s' => execSeq s' ys := by
-  induction xs generalizing s with
-  | nil => simp [execSeq]
-  | cons p ps ih =>
-    obtain ⟨mn, o⟩ := p
-    simp only [List.cons_append, execSeq]
-    cases h : s.exec mn o with
-    | none => simp
-    | some s1 => simp [ih]
-
-theorem ordered_comm (op : BOp) (a b : Atom) (L : Layout) (m : Mem) :
-    op.apply (val L m (ordered op a b).1) (val L m (ordered op a b).2) = op.apply (val L m a) (val L m b) := by
-  unfold ordered
-  split
-  · rename_i h
-    cases op <;> simp [BOp.commutes] at h <;> simp [BOp.apply, BitVec.add_comm, BitVec.and_comm, BitVec.or_comm, BitVec.xor_comm]
-  · rfl
-
-/-- every statement of the fragment, every layout, every machine state -/
+/-- every statement of the stage-1 fragment, every layout, every machine state -/
 theorem gen_stmt_correct (L : Layout) (st : FStmt) (s : Cpu) :
     ∃ s', execSeq s (genOps L st) = some s' ∧ s'.mem = spec L s.mem st ∧
-      s'.x = s.x ∧ s'.y = s.y ∧ s'.sp = s.sp := by
-  cases st with
-  | asg v a =>
-    simp only [genOps, template, execSeq, Cpu.exec, rd_opd, Option.map_some, Option.bind_some]
-    simp [opd, Cpu.ea, spec]
-  | bin v op a b =>
-    obtain ⟨s1, h1, ha, hm, hx, hy, hsp⟩ := load_op L s op (ordered op a b).1 (ordered op a b).2
-    simp only [genOps, template]
-    rw [execSeq_append, h1]
-    simp [execSeq, Cpu.exec, opd, Cpu.ea, spec, ha, hm, hx, hy, hsp, ordered_comm]
-  | opasg v op a =>
-    obtain ⟨s1, h1, ha, hm, hx, hy, hsp⟩ := load_op L s op (.var v) a
-    simp only [genOps, template]
-    rw [execSeq_append, h1]
-    simp [execSeq, Cpu.exec, opd, Cpu.ea, spec, ha, hm, hx, hy, hsp, val]
-  | inc v => simp [genOps, template, execSeq, Cpu.exec, opd, Cpu.ea, spec]
-  | dec v => simp [genOps, template, execSeq, Cpu.exec, opd, Cpu.ea, spec]
+      s'.x = s.x ∧ s'.y = s.y ∧ s'.sp = s.sp :=
+  GenFlat.gen_stmt_correct L st s
 
-/-- any sequence of statements of the fragment -/
+/-- any sequence of such statements -/
 theorem gen_block_correct (L : Layout) (sts : List FStmt) (s : Cpu) :
     ∃ s', execSeq s (sts.flatMap (genOps L)) = some s' ∧ s'.mem = specBlock L s.mem sts ∧
-      s'.x = s.x ∧ s'.y = s.y ∧ s'.sp = s.sp := by
-  induction sts generalizing s with
-  | nil => exact ⟨s, by simp [execSeq], by simp [specBlock], rfl, rfl, rfl⟩
-  | cons st rest ih =>
-    obtain ⟨s1, h1, hm1, hx1, hy1, hs1⟩ := gen_stmt_correct L st s
-    obtain ⟨s2, h2, hm2, hx2, hy2, hs2⟩ := ih s1
-    refine ⟨s2, ?_, ?_, by rw [hx2, hx1], by rw [hy2, hy1], by rw [hs2, hs1]⟩
-    · simp only [List.flatMap_cons]
-      rw [execSeq_append, h1]
-      simpa using h2
-    · rw [hm2, hm1]; rfl
+      s'.x = s.x ∧ s'.y = s.y ∧ s'.sp = s.sp :=
+  GenFlat.gen_block_correct L sts s
+
+/-! ### stage 2 -/
+
+/-- structured statements in any context -/
+theorem struct_correct_in_context (L : Layout) (st : SStmt) (fuel : Nat) (m m' : Mem)
+    (hsem : sem L fuel m st = some m') (hfr : SInFragment st = true)
+    (g : GState) (pre post : List GLine) (s : Cpu)
+    (hold : Old g pre) (hm : s.mem = m) (hflags : FlagsInv L g.flags s) :
+    ∃ s', Steps L (pre ++ (gen g st).1 ++ post) pre.length s (pre.length + (gen g st).1.length) s' ∧
+      s'.mem = m' ∧ FlagsInv L (gen g st).2.flags s' ∧ s'.x = s.x ∧ s'.y = s.y ∧ s'.sp = s.sp :=
+  correct_all L fuel st m m' hsem hfr g pre post s hold hm hflags
+
+/-- a whole function body from its first line: a terminating run of the executable machine -/
+theorem struct_program_correct (L : Layout) (st : SStmt) (fuel : Nat) (m m' : Mem)
+    (hsem : sem L fuel m st = some m') (hfr : SInFragment st = true) (s : Cpu) (hm : s.mem = m) :
+    ∃ s' n, runG L (gen {} st).1 (gen {} st).1.length n 0 s = some s' ∧
+      s'.mem = m' ∧ s'.x = s.x ∧ s'.y = s.y ∧ s'.sp = s.sp := by
+  obtain ⟨s', hs, hmem, _, hx, hy, hsp⟩ :=
+    correct_all L fuel st m m' hsem hfr {} [] [] s (by intro l hl; simp at hl) hm trivial
+  simp only [List.nil_append, List.append_nil, List.length_nil, Nat.zero_add] at hs
+  obtain ⟨n, hn⟩ := hs.runG rfl
+  exact ⟨s', n, hn, hmem, hx, hy, hsp⟩
+
+/-- every label defined by generated code is new: allocated between the generator states before and
+    after — so no label of a statement's code occurs in code generated earlier -/
+theorem fresh_labels (st : SStmt) (g : GState) :
+    ∀ l ∈ labels (gen g st).1, g.ctr l.kind.ctr < l.n ∧ l.n ≤ (gen g st).2.ctr l.kind.ctr :=
+  (gen_fresh st g).2
+
+/-- the operator tables of `generate_condition_ex` mean what their names say -/
+theorem negate_means_not (op : COp) (a b : Byte) : op.negate.eval a b = !op.eval a b := negate_eval op a b
+theorem mirror_means_swap (op : COp) (a b : Byte) : op.mirror.eval b a = op.eval a b := mirror_eval op a b
 
 /-! non-vacuity: a program using every production of the fragment -/
 def demo : List FStmt :=
@@ -130,5 +93,21 @@ def demo : List FStmt :=
    .opasg "b" .sub (.const 1), .inc "a", .dec "d", .bin "d" .bor (.var "a") (.const 128)]
 example : demo.all InFragment = true := by decide
 example : genText (.bin "c" .add (.const 3) (.var "b")) = [(.LDA, "b"), (.CLC, ""), (.ADC, "#3"), (.STA, "c")] := by decide
+
+
+/-! non-vacuity of stage 2: a program with every production; a source loop whose meaning is defined -/
+def sdemo : SStmt :=
+  .seq (.flat (.asg "a" (.const 3)))
+  (.seq (.for (.asg "b" (.const 0)) (.cmp .lt (.var "b") (.const 5)) (.inc "b")
+          (.ifElse (.cmp .gt (.var "a") (.var "b")) (.flat (.opasg "c" .add (.var "b"))) (.flat (.dec "c"))))
+  (.seq (.while (.truth "a") (.seq (.flat (.dec "a")) (.ifThen (.cmp .eq (.const 0) (.var "a")) .skip)))
+        (.doWhile (.flat (.inc "d")) (.cmp .le (.var "d") (.const 9)))))
+example : SInFragment sdemo = true := by decide
+example : ((gen {} sdemo).1.map GLine.text).length = 41 := by decide
+example (L : Layout) (m : Mem) (h : m.read (L "a") = 1) :
+    sem L 4 m (.doWhile (.flat (.dec "a")) (.truth "a")) = some (m.write (L "a") 0) := by
+  simp [sem, spec, evalCond, h]
+example (L : Layout) (m : Mem) : ∃ m', sem L 3 m (.ifElse (.truth "a") (.flat (.inc "b")) (.flat (.dec "b"))) = some m' := by
+  simp only [sem]; split <;> exact ⟨_, rfl⟩
 
 end CV.C01
